@@ -324,6 +324,32 @@ def run_session(mod, ctx, case, subcases, repeat_first):
     ctx.extra['session_steps'] += min(len(seq), upto + 1)
 
 
+def _case_families(cases):
+    """measured: how many of the enumerated cases belong to which family of the search space (DESIGN §0 / §6)"""
+    fam = defaultdict(int)
+    for c in cases:
+        if not isinstance(c, dict):
+            fam['other'] += 1
+            continue
+        sh = c.get('shape') if isinstance(c.get('shape'), dict) else {}
+        tags = []
+        if c.get('via'):
+            tags.append('reached through edits' if str(c['via']).startswith('history') else 'construction route ' + str(c['via']).split(':')[-1])
+        if c.get('kind') == 'session' or c.get('mode') == 'session':
+            tags.append('long session')
+        if sh.get('variety'):
+            tags.append('data variety: ' + str(sh['variety']).split(':')[0])
+        elif sh.get('huge'):
+            tags.append('huge (> 256 control points)')
+        elif sh.get('tall'):
+            tags.append('tall thin slice')
+        if sh and not sh.get('normalize_kv', True):
+            tags.append('knot range kept as given')
+        for t in tags or ['small exhaustive alphabet']:
+            fam[t] += 1
+    return dict(fam)
+
+
 def run_cases(mod, tier, seed, budget_s, nproc=None):
     """enumerate mod.gen_cases and run them on up to 16 processes; returns (ctx, info)"""
     t0 = time.time()
@@ -344,7 +370,7 @@ def run_cases(mod, tier, seed, budget_s, nproc=None):
     known = load_known(mod.PROPERTY)
     ctx = Ctx(mod.PROPERTY, tier, seed, known=known)
     nproc = nproc or int(os.environ.get('VERIF_PROCS', '0')) or min(16, os.cpu_count() or 1)
-    info = dict(total_cases=len(cases), caps_hit=[], completed_cases=0)
+    info = dict(total_cases=len(cases), caps_hit=[], completed_cases=0, case_families=_case_families(cases))
     if not cases:
         return ctx, info
     weight = getattr(mod, 'case_weight', None)
@@ -488,6 +514,12 @@ def report(mod, ctx, info, tier, seed, wall, extra_cov=None):
         distinct_outcomes=len(ctx.outcomes),
         known_finding_hits={k: v for k, v in ctx.known_hits.items()},
         counters=dict(ctx.extra),
+        case_families=info.get('case_families', {}),
+        extensions="every k-th shape case is repeated on an object that reached its definition through edits (history / history2) "
+                   "and every 2k-th on one built through another documented route (%s); k = %s for this module; "
+                   "tall / huge / data-variety / pairwise / zero shapes and long sessions are part of the case list where the module "
+                   "uses them (see case_families, counted on this run)"
+                   % (', '.join(__import__('mc.shapes', fromlist=['ROUTES']).ROUTES), getattr(mod, 'VIA_HISTORY_EVERY', 'n/a')),
     )
     if extra_cov:
         cov.update(extra_cov)
